@@ -103,6 +103,19 @@ class Prop(PropBase):
                     f = udp_frame(b'', msop, raw_ip_payload=bytes(40), ihl=rng.choice([0, 1, 4]), ip_id=13, tot_len=60); s.lines.append(f'F 0 {len(f)} {f.hex()}')
             s.lines.append('GO 0')
             scn.append(s.text(residual=()))
+            # the same input with use_vlan: tagged frames, whole, and cut by the snap length a few bytes before their end
+            s = scen.Scn(f'c13_jumbo_vlan_{k}')
+            s.lines.append(cfg.line(0, lj)); s.lines.append(f'N 0 3 {msop} {difop} 1 0')
+            small = b'\x55\xaa' + bytes(rng.randrange(256) for _ in range(98))     # dispatched as MSOP: whatever is delivered shows as a packet record
+            whole = udp_frame(small, msop, vlan=True, ip_id=21)
+            s.lines.append(f'F 0 {len(whole)} {whole.hex()}')
+            for cut in (1, 2, 3, 4, 5, 8):
+                s.lines.append(f'F 0 {len(whole)} {whole[:len(whole) - cut].hex()}')
+            for f in fragments(big, msop, 0x2345, [1480])[:3]:
+                tagged = f[:12] + (0x8100).to_bytes(2, 'big') + (100).to_bytes(2, 'big') + f[12:]
+                s.lines.append(f'F 0 {len(tagged)} {tagged[:len(tagged) - rng.choice([0, 0, 1, 4])].hex()}')
+            s.lines.append('GO 0')
+            scn.append(s.text(residual=()))
         # ---- sockets
         n_s = 3 if tier == 'quick' else 12
         for k in range(n_s):
